@@ -41,7 +41,7 @@ EXHAUSTIVE = {"quick": True, "thorough": True}
 EXHAUSTIVE_SCOPE = {t: f"all histories of length <= {b['depth']} over the 32 operations, scan after every operation" for t, b in BOUNDS.items()}
 MINIMUM = {"quick": {"monitor.scans_compared": 3000, "monitor.reuse_decisions": 3000, "monitor.version_refusals": 100, "foreign_versions.near_version": 50, "foreign_versions.odd_version": 50},
            "thorough": {"monitor.scans_compared": 150000, "monitor.reuse_decisions": 150000, "monitor.version_refusals": 3000}}
-PATHS = ["a.py", "src/b.py", "src/deep/c.py"]
+PATHS = ["a.py", "src/a.py", "src/deep/c.py"]  # two paths share a base name: `mv a.py src/a.py` keeps name and content
 PY = "/venv/bin/python"
 
 
@@ -52,7 +52,7 @@ def content(i):
 
 
 CONTENTS = [content(0), content(1), content(2)]
-EXCLUSIONS = [[], ["src"], ["a.py"]]
+EXCLUSIONS = [[], ["src/deep"], ["/a.py"]]
 
 
 def operations():
